@@ -570,6 +570,7 @@ func c13(p *core.Program, r *core.Report) {
 }
 
 func c14(p *core.Program, r *core.Report) {
+	countSumCoupledRule(p, r, "count-sum-coupled")
 	// whole files, so that renaming, merging or splitting the helpers keeps them covered
 	strideRuleN(p, r, "stride-discipline", []strideTarget{
 		{"xy", "file:area_centroid.go", "xy"},
